@@ -89,8 +89,8 @@ fn s_small(t: &mut Tape, ctx: &mut Ctx) -> Result<(), Failure> {
 
 pub fn streams() -> Vec<Stream> {
     vec![
-        Stream { name: "general", kind: Kind::Tape { cases: |t: Tier| t.pick(2_500, 120_000), max_len: 600, f: s_general }, isolate: false },
-        Stream { name: "small", kind: Kind::Tape { cases: |t: Tier| t.pick(2_500, 120_000), max_len: 300, f: s_small }, isolate: false },
+        Stream { name: "general", kind: Kind::Tape { cases: |t: Tier| t.pick(3_000, 150_000), max_len: 600, f: s_general }, isolate: false },
+        Stream { name: "small", kind: Kind::Tape { cases: |t: Tier| t.pick(3_000, 150_000), max_len: 300, f: s_small }, isolate: false },
     ]
 }
 
